@@ -69,7 +69,7 @@ type Case struct {
 	DelaysUS map[string]int    `json:"delays_us,omitempty"`
 }
 
-const query = `query($r: [_Any!]!) { _entities(representations: $r) { __typename ... on User { marker } ... on Item { marker } ... on Pair { marker } ... on Crate { marker } ... on Nested { marker } ... on Planet { marker diameter } ... on Shipment { marker crate { box { dims { width height } } } } ... on MUser { marker } ... on MItem { marker } } }`
+const query = `query($r: [_Any!]!) { _entities(representations: $r) { __typename ... on User { marker } ... on Item { marker } ... on Pair { marker } ... on Crate { marker } ... on Nested { marker } ... on Planet { marker diameter size } ... on Shipment { marker volume crate { box { dims { width height } } } } ... on MUser { marker } ... on MItem { marker } } }`
 
 // state the entity resolvers consult
 type state struct {
@@ -209,6 +209,66 @@ func fillEntityResolvers(stub any) {
 	}
 }
 
+// fillRequiresResolvers (federation computed_requires): a @requires field is a resolver that is handed
+// the required fields of its representation; it answers with the sum of all numbers in them, so the
+// response tells which representation gqlgen handed over.
+func fillRequiresResolvers(stub any) {
+	sv := reflect.ValueOf(stub).Elem()
+	mapT := reflect.TypeOf(map[string]any{})
+	for i := 0; i < sv.NumField(); i++ {
+		rs := sv.Field(i)
+		if rs.Kind() != reflect.Struct {
+			continue
+		}
+		for j := 0; j < rs.NumField(); j++ {
+			ft := rs.Type().Field(j).Type
+			if ft.Kind() != reflect.Func || ft.NumIn() < 3 || ft.In(ft.NumIn()-1) != mapT || !rs.Field(j).CanSet() {
+				continue
+			}
+			rs.Field(j).Set(reflect.MakeFunc(ft, func(in []reflect.Value) []reflect.Value {
+				sum := sumNumbers(in[len(in)-1].Interface())
+				out := reflect.New(ft.Out(0)).Elem()
+				switch out.Kind() {
+				case reflect.Int, reflect.Int64, reflect.Int32:
+					out.SetInt(sum)
+				case reflect.Ptr:
+					p := reflect.New(out.Type().Elem())
+					p.Elem().SetInt(sum)
+					out.Set(p)
+				}
+				return []reflect.Value{out, reflect.Zero(errType)}
+			}))
+		}
+	}
+}
+
+func sumNumbers(v any) int64 {
+	switch x := v.(type) {
+	case map[string]any:
+		var s int64
+		for _, e := range x {
+			s += sumNumbers(e)
+		}
+		return s
+	case []any:
+		var s int64
+		for _, e := range x {
+			s += sumNumbers(e)
+		}
+		return s
+	case json.Number:
+		n, _ := x.Int64()
+		return n
+	case float64:
+		return int64(x)
+	case int:
+		return int64(x)
+	case int64:
+		return x
+	}
+	return 0
+}
+
 var (
 	srvMu sync.Mutex
 	built = map[string][]*proj.Server{}
@@ -226,6 +286,7 @@ func servers(name string) ([]*proj.Server, error) {
 	}
 	for _, s := range ss {
 		fillEntityResolvers(s.Stub)
+		fillRequiresResolvers(s.Stub)
 	}
 	built[name] = ss
 	return ss, nil
@@ -532,6 +593,23 @@ func check(c Case) *vfrun.Failure {
 					key = "entities.multi-resolver-from-first-rep"
 				}
 				return vfrun.Failf(key, "%s: element %d is %s, but representation %d (%s) resolves to %s", desc, i, el.Canon(), i, c.Reps[i], ex.marker)
+			}
+			computed := strings.Contains(s.P.Options["federation_options"], "computed_requires")
+			if computed {
+				// the required fields are not copied into the entity but handed to the resolver of
+				// the field that requires them
+				if ex.dims != nil {
+					if v := el.Get("volume"); v == nil || v.Canon() != fmt.Sprint(ex.dims[0]+ex.dims[1]) {
+						return vfrun.Failf("entities.requires-from-other-representation", "%s: element %d: the resolver of volume was handed required fields that sum to %v, its representation's sum to %d", desc, i, v, ex.dims[0]+ex.dims[1])
+					}
+				}
+				if ex.diam != nil {
+					if v := el.Get("size"); v == nil || v.Canon() != fmt.Sprint(*ex.diam) {
+						return vfrun.Failf("entities.requires-from-other-representation", "%s: element %d: the resolver of size was handed diameter %v, its representation says %d", desc, i, v, *ex.diam)
+					}
+				}
+				vfrun.Label("computed-requires")
+				continue
 			}
 			if ex.dims != nil {
 				var got [2]string
